@@ -96,6 +96,22 @@ def check_outputs(rep, run_id, outs, events, wd, seed, orders=3, shape_of=None):
                 rep.violation(key, {"file": f, "stderr": err})
         return bad
     outs = {k: v for k, v in outs.items() if not k.startswith("_")}
+    # Includes.tla gives every header a guard of its own (Guard is injective over files): two files of one output directory that
+    # share an include guard silently drop each other from any translation unit that sees both
+    for be, ext in (("c", ".h"), ("cpp", ".hpp")):
+        if be in outs:
+            guards = {}
+            for r_, _, fs_ in os.walk(outs[be]):
+                for f_ in fs_:
+                    if f_.endswith(ext):
+                        m_ = re.search(r'^#ifndef (\w+)', open(os.path.join(r_, f_)).read(), re.M)
+                        if m_:
+                            guards.setdefault(m_.group(1), []).append(os.path.relpath(os.path.join(r_, f_), outs[be]))
+            for g_, fs_ in sorted(guards.items()):
+                if len(fs_) > 1:
+                    pair = "decl header of X and header of X_D" if any(".d." in x for x in fs_) and any(".d." not in x for x in fs_) else "two type names"
+                    rep.violation({"set": run_id, "backend": be, "what": "two generated headers share one include guard", "between": pair},
+                                  {"guard": g_, "files": sorted(fs_)})
     if "c" in outs:
         hs = [os.path.join(outs["c"], f) for f in sorted(os.listdir(outs["c"])) if f.endswith(".h")]
         bad = report("c", "gcc -std=c11", each_alone(hs, lambda f: ["gcc", "-std=c11", "-fsyntax-only", "-Werror=implicit-function-declaration", "-x", "c", "-I", outs["c"], f]))
@@ -248,6 +264,51 @@ pub mod lb {
 """
 
 
+GUARD_NAMES = """#![allow(unused, non_snake_case, non_camel_case_types, clippy::all)]
+#[diplomat::bridge]
+pub mod gn {
+    #[diplomat::opaque]
+    pub struct RGB(pub u8);
+    pub struct Rgb {
+        pub r: u8,
+    }
+    #[diplomat::opaque]
+    pub struct Url(pub u8);
+    pub enum URL {
+        A,
+        B,
+    }
+    impl RGB {
+        pub fn to_struct(&self) -> Rgb { Rgb { r: self.0 } }
+        pub fn with(&self, u: &Url, k: URL) -> u8 { 0 }
+    }
+    impl Rgb {
+        pub fn back(self, o: &RGB) -> u8 { self.r }
+    }
+    impl Url {
+        pub fn kind(&self) -> URL { URL::A }
+    }
+}
+"""
+
+
+GUARD_NAMES_D = """#![allow(unused, non_snake_case, non_camel_case_types, clippy::all)]
+#[diplomat::bridge]
+pub mod gd {
+    #[diplomat::opaque]
+    pub struct Foo(pub u8);
+    #[diplomat::opaque]
+    pub struct Foo_D(pub u8);
+    impl Foo {
+        pub fn a(&self, x: &Foo_D) -> u8 { 0 }
+    }
+    impl Foo_D {
+        pub fn b(&self, x: &Foo) -> u8 { 0 }
+    }
+}
+"""
+
+
 TRAIT_ATTRS = """#![allow(unused, non_snake_case, clippy::all)]
 #[diplomat::bridge]
 pub mod tb {
@@ -309,6 +370,9 @@ def run(rep, tier):
     # ---- set 1c: Diplomat attributes on a TRAIT and on its methods (read by the tool like those on types and methods): rustc must
     # not see them in the expansion; C is the backend with trait support
     run_set(rep, "traitattrs", TRAIT_ATTRS, wd, events, backends=("c",))
+    # ---- set 1d: type names that differ only in letter case, and a type named like another type's declaration header (X, X_D)
+    run_set(rep, "guardnames", GUARD_NAMES, wd, events, backends=("c", "cpp"))
+    run_set(rep, "guardnames_d", GUARD_NAMES_D, wd, events, backends=("c", "cpp"))
     # ---- set 2: every shape the gate accepts for the C profile, compiled by the real macro
     g = lib.tlc("gate", "MC_Gate", "gate1_emit.cfg" if tier == "quick" else "gate2_emit.cfg", workers=8, coverage=False, timeout=600)
     gcases = [c for c in g.printed["CASE"] if c["accept"] and not c["urefs"] and set(c["need"]) <= {"option", "callbacks", "traits", "static_slices"}
